@@ -103,7 +103,7 @@ func init() {
 				{K: "start", I: 0}, {K: "start", I: 1}, {K: "start", I: 2},
 				{K: "resp", I: 0}, {K: "resp", I: 1}, {K: "resp", I: 2},
 				{K: "resp", I: 0, Arg: 1}, {K: "resp", I: 1, Arg: 2}, {K: "unknown"}, {K: "unknown", Arg: 1},
-				{K: "garbage", Arg: 0}, {K: "garbage", Arg: 1}, {K: "garbage", Arg: 2}, {K: "garbage", Arg: 3}, {K: "garbage", Arg: 4},
+				{K: "garbage", Arg: 0}, {K: "garbage", Arg: 1}, {K: "garbage", Arg: 2}, {K: "garbage", Arg: 3}, {K: "garbage", Arg: 4}, {K: "garbage", Arg: 5}, {K: "garbage", Arg: 6},
 				{K: "resp", I: 2, Arg: 3}, {K: "tick", Arg: 1}, {K: "failagent"}, {K: "readerr", Arg: 3}, {K: "readerr", Arg: 0},
 			}
 			eps := []string{"drain+close"}
